@@ -503,3 +503,16 @@ func (g *Gen) dropLive(h int) {
 		}
 	}
 }
+
+
+// NextRead generates a read operation (GetBlob, GetBlobRange, GetManifest or GetTag)
+// without touching the generator's bookkeeping.
+func (g *Gen) NextRead() *Op {
+	saved := g.Cfg.Weights
+	var w [NumKinds]int
+	w[GetBlob], w[GetBlobRange], w[GetManifest], w[GetTag] = 3, 2, 3, 4
+	g.Cfg.Weights = w
+	op := g.Next()
+	g.Cfg.Weights = saved
+	return op
+}
